@@ -123,6 +123,7 @@ type Result struct {
 	Infeasible   int
 	Violations   []*Violation
 	Known        map[string]int // known-finding id -> times reproduced
+	KnownHeld    map[string]int // audit: "id @ assertion label" -> paths on which the assertion held although the known-finding predicate was on
 	Witness      map[string]int
 	Unsupported  map[string]int
 	Budget       map[string]int
@@ -655,16 +656,29 @@ func (w *Worker) reportViolation(kind, label string, extra *sym.Term, fr *frame)
 // assertV implements verifAssert.
 func (w *Worker) assertV(cv value, label string, fr *frame) {
 	w.eng.note(func(res *Result) { res.Asserts++ })
+	held := func() {
+		// audit of known-finding predicates: one that is on while the assertion holds covers a case that does not fail
+		for id, cond := range w.knownHit {
+			if cond == nil {
+				k := id + " @ " + label
+				w.eng.note(func(res *Result) { res.KnownHeld[k]++ })
+			}
+		}
+	}
 	switch cv := cv.(type) {
 	case bool:
 		if !cv {
 			w.reportViolation("assert", label, nil, fr)
+		} else {
+			held()
 		}
 	case symVal:
 		w.eng.note(func(res *Result) { res.AssertsSym++ })
 		nt := w.c.Not(cv.t)
 		r, _ := w.check(nt, nil)
 		switch r {
+		case sym.Unsat:
+			held()
 		case sym.Sat:
 			w.reportViolation("assert", label, nt, fr)
 		case sym.Unknown:
@@ -782,7 +796,7 @@ func Explore(pkg *ssa.Package, fn *ssa.Function, opt Options) *Result {
 	e := &Engine{Prog: pkg.Prog, Pkg: pkg, Fn: fn, Opt: opt, start: time.Now(), violCnt: map[string]int{},
 		cov: map[*ssa.Function]map[ssa.Instruction]bool{}}
 	e.cond = sync.NewCond(&e.mu)
-	e.res = &Result{Harness: fn.Name(), Known: map[string]int{}, Witness: map[string]int{}, Unsupported: map[string]int{},
+	e.res = &Result{Harness: fn.Name(), Known: map[string]int{}, KnownHeld: map[string]int{}, Witness: map[string]int{}, Unsupported: map[string]int{},
 		Budget: map[string]int{}, Hangs: map[string]int{}, Inconclusive: map[string]int{}, Coverage: map[string]int{}, Stubs: map[string]int{}}
 	e.queue = [][]Decision{{}}
 	var wg sync.WaitGroup
